@@ -107,6 +107,15 @@ def check(job):
             mol0.set_geom_(coords, unit="Bohr")
             ks0.grids.build(with_non0tab=True)
             mol1, ks1 = mol0, ks0
+        elif job.get("pad_atom") is not None:
+            # a translation that puts a nucleus EXACTLY on the coordinate pyscf pads grids with ((1e-4, 1e-4, 1e-4) Bohr,
+            # zero weight): quantities that are singular in the distance to a nucleus are evaluated at r = 0 there
+            from pyscf import gto
+            cb = mol0.atom_coords(unit="Bohr")
+            cb = cb - cb[job["pad_atom"]] + 1e-4
+            cb[job["pad_atom"]] = 1e-4
+            mol1 = gto.M(atom=[[mol0.atom_symbol(i), tuple(cb[i])] for i in range(mol0.natm)], basis="sto-3g", verbose=0, unit="Bohr")
+            ks1 = e2e.make_session(cfg, mol1, False, job["seed"], level=job["level"])
         else:
             mol1, ks1 = build(R, t, perm, cfg, job["level"], job["seed"], job.get("base", "OHF"))
         new = invariants(mol1, ks1, job["features"])
@@ -167,9 +176,9 @@ def main():
         gsel, fams_q = G, fams
     jobs = []
 
-    def add(kind, R, t, perm, cfg, level=0, features=True, tol=None, base="OHF", inplace=False):
+    def add(kind, R, t, perm, cfg, level=0, features=True, tol=None, base="OHF", inplace=False, pad_atom=None):
         jobs.append({"id": len(jobs), "kind": kind, "R": np.asarray(R).tolist(), "t": list(t), "perm": list(perm), "cfg": cfg, "level": level,
-                     "features": features, "seed": 3, "tol": tol, "base": base, "inplace": inplace})
+                     "features": features, "seed": 3, "tol": tol, "base": base, "inplace": inplace, "pad_atom": pad_atom})
     for cfg in fams_q:
         for R in gsel:
             add("octahedral", R, (0, 0, 0), (0, 1, 2), cfg)
@@ -181,6 +190,8 @@ def main():
                 add("atom-permutation:repeated-element", np.eye(3), (0, 0, 0), perm, cfg, features=(perm == (1, 0, 2)), base="OHH")
         add("octahedral+permutation:repeated-element", gsel[7], (0, 0, 0), (1, 0, 2), cfg, level=1, features=False, base="OHH")
         add("translation", np.eye(3), (1.37, -2.2, 0.61), (0, 1, 2), cfg)
+        add("translation:nucleus-onto-the-grid-padding-point", np.eye(3), (0, 0, 0), (0, 1, 2), cfg, features=False, pad_atom=0)
+        add("translation:nucleus-onto-the-grid-padding-point", np.eye(3), (0, 0, 0), (0, 1, 2), cfg, features=False, pad_atom=1, base="OHH")
         # rigid motions applied IN PLACE to the same molecule / grid / calculator objects
         add("in-place:translation", np.eye(3), (0.9, -1.4, 0.35), (0, 1, 2), cfg, inplace=True)
         add("in-place:octahedral", gsel[5], (0, 0, 0), (0, 1, 2), cfg, inplace=True)
